@@ -129,6 +129,19 @@ def execute(spec):
                         node_of[(id(atok), j)] = bd
             except Exception as exc:
                 viol("graph_construction_raised", f"second gen_reaction_graph raised {exc!r}", ["exc=" + type(exc).__name__])
+            # a copy of the molecule taken now (after its graph has been built) denotes the same molecule: same graph
+            try:
+                import copy as _copy
+
+                from . import c10
+
+                Gc = _copy.deepcopy(mol).gen_reaction_graph()
+                stats["graphs_of_copies"] = stats.get("graphs_of_copies", 0) + 1
+                if c10._graph_digest(Gc) != c10._graph_digest(G):
+                    viol("graph_of_copy_differs", "gen_reaction_graph() of a deep copy taken after the graph was built differs from the original's graph "
+                         "(nodes / edges / probabilities)")
+            except Exception as exc:
+                viol("graph_construction_raised", f"gen_reaction_graph of a deep copy raised {exc!r}", ["exc=" + type(exc).__name__])
         if out.audit.violations:
             continue  # decisions that do not follow the notation are C08's business; the trace is then no oracle
         uid_tok = {u: rec["tok"] for u, rec in out.audit.inst.items()}
